@@ -1,2 +1,3 @@
 -- Root of the `RainModel` library: models, lemmas, property theorems.
 import RainModel.Model.Blocks
+import RainModel.Props.C09
